@@ -8,7 +8,7 @@ manages polling based on target capacity and re-polls after work completion.
 from __future__ import annotations
 
 import logging
-from dataclasses import dataclass
+from dataclasses import dataclass, field
 from typing import TYPE_CHECKING
 
 from happysimulator.components.queue import QueueDeliverEvent, QueueNotifyEvent, QueuePollEvent
@@ -47,6 +47,11 @@ class QueueDriver(Entity):
     name: str = "QueueDriver"
     queue: Entity = None
     target: Entity = None
+    # True from the moment a poll is issued until the delivered item has
+    # reached the target: has_capacity() cannot see an item that is on its
+    # way, so a second poll in that gap would fetch work for a slot that is
+    # about to be taken and the target would have to turn it away.
+    _poll_in_flight: bool = field(default=False, init=False, repr=False)
 
     def downstream_entities(self) -> list[Entity]:
         result: list[Entity] = []
@@ -67,6 +72,7 @@ class QueueDriver(Entity):
         """Queue delivered one payload event; clone/retarget and re-emit."""
         if event.payload is None:
             logger.debug("[%s] Received empty delivery", self.name)
+            self._poll_in_flight = False
             return []
         logger.debug(
             "[%s] Received delivery: type=%s, forwarding to target",
@@ -77,11 +83,7 @@ class QueueDriver(Entity):
 
     def _handle_work_payload(self, payload: Event) -> list[Event]:
         def schedule_poll(time: Instant):
-            if self.target.has_capacity():
-                logger.debug("[%s] Target has capacity, scheduling poll", self.name)
-                return QueuePollEvent(time=time, target=self.queue, requestor=self)
-            logger.debug("[%s] Target at capacity, deferring poll", self.name)
-            return None
+            return self._poll_if_ready(time)
 
         target_event = payload
         target_event.time = self.now
@@ -92,14 +94,25 @@ class QueueDriver(Entity):
         # worker has started this item (the payload sorts first: it was created
         # earlier): if the worker still has capacity, the next item is polled now
         # instead of waiting for a completion.
-        recheck = QueueNotifyEvent(time=self.now, target=self, queue_entity=self.queue)
+        recheck = QueueNotifyEvent(
+            time=self.now,
+            target=self,
+            queue_entity=self.queue,
+            context={"metadata": {"delivered": True}},
+        )
         return [target_event, recheck]
 
-    def _handle_notify(self, _: QueueNotifyEvent) -> list[Event]:
-        """Queue has work available—poll if target has capacity."""
-        if not self.target.has_capacity():
-            logger.debug("[%s] Notify received but target at capacity", self.name)
-            return []
+    def _poll_if_ready(self, time: Instant) -> QueuePollEvent | None:
+        """One poll at a time, and only for a free slot."""
+        if self._poll_in_flight or not self.target.has_capacity():
+            logger.debug("[%s] Target at capacity or poll in flight, deferring poll", self.name)
+            return None
+        self._poll_in_flight = True
+        return QueuePollEvent(time=time, target=self.queue, requestor=self)
 
-        logger.debug("[%s] Notify received, polling queue", self.name)
-        return [QueuePollEvent(time=self.now, target=self.queue, requestor=self)]
+    def _handle_notify(self, event: QueueNotifyEvent) -> list[Event]:
+        """Queue has work available—poll if target has capacity."""
+        if event.context.get("metadata", {}).get("delivered"):
+            self._poll_in_flight = False  # the polled item has reached the target
+        poll = self._poll_if_ready(self.now)
+        return [poll] if poll is not None else []
